@@ -97,6 +97,9 @@ type Program struct {
 	FinalWait bool `json:"final_wait"`
 	// GFX9 compiles with the gfx9/CDNA3 encodings (for the CDNA3 emulator)
 	GFX9 bool `json:"gfx9,omitempty"`
+	// PackedIDs (with GFX9 only): the code object is marked version 5 (gfx942), for which the
+	// work-item ids arrive packed in v0 as x | y<<10 | z<<20; the prologue unpacks them
+	PackedIDs bool `json:"packed_ids,omitempty"`
 	// PadVGPR / PadSGPR enlarge the register counts declared in the code object beyond
 	// what the code uses (as compilers do), independently of each other
 	PadVGPR int `json:"pad_vgpr,omitempty"`
